@@ -12,6 +12,21 @@
 (*               reference, typically closing a cycle) or InjectCtx (an    *)
 (*               item starts reading the context), then Start hands it to  *)
 (*               ConstOrder.                                               *)
+(* Mode "typed": like "all", and the constants have every combination of   *)
+(*               value types (ConstOrder.Types; functions are i32): the    *)
+(*               evaluate-once / dependencies-first / reject-first rules   *)
+(*               for constants of every type, zero-sized ones included.    *)
+(*               With MutOn the run phase also explores GetV and Mut       *)
+(*               (copies of constants modified by functions, lists bounded *)
+(*               by MaxLen) and checks that the stored values never change *)
+(*               (ValuesAgree).                                            *)
+(* Mode "walk" : used with `-simulate`: kinds and types are chosen in the  *)
+(*               initial state, the graph is built edge by edge as in      *)
+(*               "build" (no damage), the compilation runs, and then       *)
+(*               WalkLen Call-phase actions (Mut / GetV / Get / Call) are  *)
+(*               taken and recorded, with what each of them shows, in      *)
+(*               hist: the case that is emitted is the graph plus this     *)
+(*               programme of function calls and their expected results.   *)
 (* Every graph that is (mode all) or can be (mode build) handed to         *)
 (* ConstOrder is printed as a REPLAY case with                             *)
 (* the specification's verdict, the constants each constant must wait for, *)
@@ -24,25 +39,36 @@ CONSTANTS N,          \* number of items
           MaxCtx,     \* mode all: bound on the number of context users
           MinEdges,   \* mode build: edges to add (if possible) before Inject* / Start
           MaxEdges,   \* mode build: bound on the number of AddEdge steps
-          MaxInject   \* mode build: bound on the number of Inject* steps
+          MaxInject,  \* mode build: bound on the number of Inject* steps
+          MutOn,      \* mode typed: explore GetV / Mut in the run phase
+          Ws,         \* the numbers a modification of a copy may use
+          MaxLen,     \* bound on the length of a list (pushes through copies)
+          WalkLen     \* mode walk: number of recorded Call-phase actions
 
 VARIABLES phase,      \* "build" | "run"
-          inj         \* number of injections so far
+          inj,        \* number of injections so far
+          hist        \* mode walk: the Call-phase actions taken so far, with what they showed
 
-mcvars == <<vars, phase, inj>>
+mcvars == <<vars, phase, inj, hist>>
 
 AllPairs == (1..N) \X (1..N)
 Kinds    == [1..N -> {"c", "f"}]
-Graph(k, r, x) == [n |-> N, kind |-> k, refs |-> r, ctx |-> x]
+I32s     == [i \in 1..N |-> "i32"]
+(* every assignment of value types to the constants (functions: i32) *)
+TypesFor(k) == {t \in [1..N -> Types] : \A i \in 1..N : k[i] = "f" => t[i] = "i32"}
+Graph(k, r, x, t) == [n |-> N, kind |-> k, refs |-> r, ctx |-> x, ty |-> t]
+Building == Mode \in {"build", "walk"}
 
 MCInit ==
-  /\ inj = 0
-  /\ IF Mode = "all"
+  /\ inj = 0 /\ hist = <<>>
+  /\ IF ~Building
      THEN /\ phase = "run"
           /\ \E k \in Kinds, r \in SUBSET AllPairs, x \in {s \in SUBSET (1..N) : Cardinality(s) <= MaxCtx} :
-                InitState(Graph(k, r, x))
+               \E t \in (IF Mode = "typed" THEN TypesFor(k) ELSE {I32s}) :
+                InitState(Graph(k, r, x, t))
      ELSE /\ phase = "build"
-          /\ \E k \in Kinds : InitState(Graph(k, {}, {}))
+          /\ \E k \in Kinds : \E t \in (IF Mode = "walk" THEN TypesFor(k) ELSE {I32s}) :
+                InitState(Graph(k, {}, {}, t))
 
 (* would the script still be acceptable with graph h?  (ConstOrder's Bad,  *)
 (* evaluated for a candidate graph)                                         *)
@@ -63,19 +89,19 @@ Enough == Cardinality(g.refs) >= MinEdges \/ inj > 0 \/ ~(\E i, j \in 1..N : Can
 AddEdge(i, j) ==
   /\ CanAdd(i, j)
   /\ g' = [g EXCEPT !.refs = @ \cup {<<i, j>>}]
-  /\ Keep /\ UNCHANGED <<phase, inj>>
+  /\ Keep /\ UNCHANGED <<phase, inj, hist>>
 
 InjectEdge(i, j) ==
   /\ Enough /\ inj < MaxInject /\ <<i, j>> \notin g.refs
   /\ g' = [g EXCEPT !.refs = @ \cup {<<i, j>>}]
-  /\ inj' = inj + 1 /\ Keep /\ UNCHANGED phase
+  /\ inj' = inj + 1 /\ Keep /\ UNCHANGED <<phase, hist>>
 
 InjectCtx(i) ==
   /\ Enough /\ inj < MaxInject /\ i \notin g.ctx
   /\ g' = [g EXCEPT !.ctx = @ \cup {i}]
-  /\ inj' = inj + 1 /\ Keep /\ UNCHANGED phase
+  /\ inj' = inj + 1 /\ Keep /\ UNCHANGED <<phase, hist>>
 
-Start == Enough /\ phase' = "run" /\ UNCHANGED <<vars, inj>>
+Start == Enough /\ phase' = "run" /\ UNCHANGED <<vars, inj, hist>>
 
 InBuild == phase = "build"
 InRun   == phase = "run" /\ UNCHANGED <<phase, inj>>
@@ -84,14 +110,26 @@ MCAddEdge    == InBuild /\ \E i, j \in 1..N : AddEdge(i, j)
 MCInjectEdge == InBuild /\ \E i, j \in 1..N : InjectEdge(i, j)
 MCInjectCtx  == InBuild /\ \E i \in 1..N : InjectCtx(i)
 MCStart      == InBuild /\ Start
-MCEvalConst  == InRun /\ \E c \in Nodes : EvalConst(c)
-MCReject     == InRun /\ Reject
-MCDone       == InRun /\ Done
-MCCall       == InRun /\ \E f \in Nodes : Call(f)
-MCGet        == InRun /\ \E c \in Nodes : Get(c)
+MCEvalConst  == InRun /\ (\E c \in Nodes : EvalConst(c)) /\ UNCHANGED hist
+MCReject     == InRun /\ Reject /\ UNCHANGED hist
+MCDone       == InRun /\ Done /\ UNCHANGED hist
+(* Call-phase actions: in mode walk at most WalkLen of them, recorded *)
+More         == Mode = "walk" => Len(hist) < WalkLen
+Log(e)       == hist' = IF Mode = "walk" THEN Append(hist, e) ELSE hist
+Typed        == Mode = "walk" \/ (Mode = "typed" /\ MutOn)
+MCCall       == InRun /\ More /\ \E f \in Nodes : Call(f) /\ Log([op |-> "call", id |-> f, v |-> obs'])
+MCGet        == InRun /\ More /\ \E c \in Nodes : Get(c) /\ Log([op |-> "get", id |-> c, v |-> obs'])
+MCGetV       == InRun /\ More /\ Typed
+                /\ \E c \in Nodes : GetV(c) /\ Log([op |-> "getv", id |-> c, v |-> obs'])
+MCMut        == InRun /\ More /\ Typed
+                /\ \E c \in Nodes, via \in Vias, h \in AllHows, w \in Ws :
+                      /\ c \in Consts /\ compiled /\ h \in Hows(g.ty[c])
+                      /\ (h = "push" => Len(vals[c]) < MaxLen)
+                      /\ Mut(c, via, h, w)
+                      /\ Log([op |-> "mut", id |-> c, via |-> via, how |-> h, w |-> w, v |-> obs'])
 
 MCNext == \/ MCAddEdge \/ MCInjectEdge \/ MCInjectCtx \/ MCStart
-          \/ MCEvalConst \/ MCReject \/ MCDone \/ MCCall \/ MCGet
+          \/ MCEvalConst \/ MCReject \/ MCDone \/ MCCall \/ MCGet \/ MCGetV \/ MCMut
 
 MCSpec == MCInit /\ [][MCNext]_mcvars
 
@@ -102,20 +140,27 @@ Why == IF \E c \in Consts : Cyclic(c)
        ELSE (IF Bad THEN "ctx" ELSE "none")
 
 Case ==
+  LET F == IF Bad THEN <<>> ELSE Final     \* evaluated once per case
+  IN
   [n       |-> g.n,
    kind    |-> g.kind,
+   ty      |-> g.ty,
    refs    |-> SetSeq(g.refs),
    ctx     |-> SetSeq(g.ctx),
    verdict |-> IF Bad THEN "rejected" ELSE "ok",
    why     |-> Why,
    deps    |-> [i \in Nodes |-> IF i \in Consts THEN SetSeq(ConstDeps(i)) ELSE <<>>],
-   sums    |-> [i \in Nodes |-> IF ~Bad /\ i \in Consts THEN RefSum(i, Final) ELSE 0],
+   sums    |-> [i \in Nodes |-> IF ~Bad /\ i \in Consts THEN RefSum(i, F) ELSE 0],
    vals    |-> [i \in Nodes |-> IF Bad THEN 0
-                                ELSE IF i \in Consts THEN Final[i] ELSE FnVal(i, Fuel, Final)]]
+                                ELSE IF i \in Consts THEN Num(g.ty[i], F[i]) ELSE FnVal(i, Fuel, F)],
+   flat    |-> [i \in Nodes |-> IF ~Bad /\ i \in Consts THEN Flat(g.ty[i], F[i]) ELSE <<>>],
+   prog    |-> hist]
 
-(* mode all: once per graph (its initial state); mode build: every graph the  *)
-(* build phase could hand over (every build state in which Start is enabled)  *)
-Emit == (IF Mode = "all" THEN order = <<>> /\ ~rejected /\ ~compiled
-                         ELSE phase = "build" /\ Enough)
+(* mode all / typed: once per graph (its initial state); mode build: every    *)
+(* graph the build phase could hand over (every build state in which Start is *)
+(* enabled); mode walk: every completed programme of WalkLen recorded actions *)
+Emit == (CASE Mode \in {"all", "typed"} -> order = <<>> /\ ~rejected /\ ~compiled
+           [] Mode = "build"            -> phase = "build" /\ Enough
+           [] Mode = "walk"             -> phase = "run" /\ compiled /\ Len(hist) = WalkLen)
           => PrintT(<<"REPLAY", ToJson(Case)>>)
 =============================================================================
